@@ -201,8 +201,22 @@ def rule_e(repo, chk):
     ok = any(isinstance(x, ast.Call) and call_name(x) == 'add' and 'ignored_paths_rel' in norm(x.func) and norm(x.args[0]) == '(folder_io.path, name)' for x in own_nodes(g))
     chk.ob('C19.e', ok, g, 'a bare pattern is remembered with the folder of its .gitignore (applies below that folder)')
     ex = repo.find(REFS, 'expand_relative_ignore_paths')
-    ok = 'curr_path.startswith(p[0])' in norm(ex)
+    ok = any(isinstance(x, ast.Call) and isinstance(x.func, ast.Attribute) and x.func.attr == 'startswith' and norm(x.func.value) == 'curr_path'
+             and 'p[0]' in norm(x.args[0]) for x in ast.walk(ex))
     chk.ob('C19.e', ok, ex, 'a bare pattern applies to every folder below its .gitignore')
+
+
+PREFIX_TRIAGED = {
+    ('jedi.inference.references', '_find_python_files_in_sys_path', 'path.startswith(p)'):
+        'only decides how far up the folder walk of the reference search climbs: a false match searches MORE folders (never fewer)',
+}
+
+
+def rule_f(repo, chk):
+    chk.clause('C19.f', 'ignore rules and search roots relate paths by whole components: in references.py no string-prefix test between '
+                        'two paths decides that a folder lies below another one (a/.gitignore must not reach ab/)')
+    from ..lib import path_prefix_check
+    path_prefix_check(repo, chk, 'C19.f', ['jedi.inference.references'], triaged=PREFIX_TRIAGED, floor=2)
 
 
 def describe(chk):
@@ -210,4 +224,4 @@ def describe(chk):
                   'the documented file limits')
 
 
-RULES = [('C19.a', rule_a), ('C19.b', rule_b), ('C19.c', rule_c), ('C19.d', rule_d), ('C19.e', rule_e)]
+RULES = [('C19.a', rule_a), ('C19.b', rule_b), ('C19.c', rule_c), ('C19.d', rule_d), ('C19.e', rule_e), ('C19.f', rule_f)]
